@@ -5,6 +5,7 @@ import (
 	"testing"
 
 	"github.com/aergoio/aergo/v2/zz_verif/simkit"
+	"github.com/aergoio/aergo/v2/zz_verif/worlds/chainw"
 	"github.com/aergoio/aergo/v2/zz_verif/worlds/exec"
 	"github.com/aergoio/aergo/v2/zz_verif/worlds/store"
 )
@@ -13,6 +14,8 @@ func Get(name, scratch string, m *testing.M) simkit.World {
 	switch name {
 	case "store-trie":
 		return &store.C10{Scratch: scratch}
+	case "chain":
+		return &chainw.World{Scratch: scratch}
 	case "exec":
 		return &exec.World{Scratch: scratch}
 	case "store-proof":
